@@ -1,4 +1,4 @@
-// bounded: pkg=manifest run=TestVerifBoundedEditRoundTrip bound=every edit kind; each varint field from {0,1,128,max of its type}; keys from {nil, 1 byte, 130 bytes}; 0..2 peers; plus every stream of 1..3 edits drawn from a 12-element sample, written with writeEdit and read back with readEdit
+// bounded: pkg=manifest run=TestVerifBoundedEditRoundTrip bound=every edit kind; each varint field from {0,1,128,max of its type}; keys from {nil, 1 byte, 130 bytes}; 0..2 peers; every zero/non-zero pattern of a raft pointer's four trailing fields; plus every stream of 1..3 edits drawn from a 12-element sample, written with writeEdit and read back with readEdit
 package manifest
 
 // Bounded stand-in for the encode/decode round trip of manifest edits (C15: "the state
@@ -152,6 +152,16 @@ func verifBoundedEdits() []Edit {
 			}
 			out = append(out, Edit{Type: EditRaftPointer, Raft: &RaftLogPointer{GroupID: vals[0], Segment: seg, Offset: vals[2], AppliedIndex: vals[3], AppliedTerm: vals[4], Committed: vals[5], SnapshotIndex: vals[6], SnapshotTerm: vals[7], TruncatedIndex: vals[8], TruncatedTerm: vals[9], SegmentIndex: vals[10], TruncatedOffset: vals[11]}})
 		}
+	}
+	// the optional tail of a raft pointer: every zero / non-zero pattern of the last four fields
+	for m := 0; m < 16; m++ {
+		pick := func(bit int, v uint64) uint64 {
+			if m&(1<<bit) != 0 {
+				return v
+			}
+			return 0
+		}
+		out = append(out, Edit{Type: EditRaftPointer, Raft: &RaftLogPointer{GroupID: 1, Segment: 2, Offset: 3, AppliedIndex: 4, AppliedTerm: 5, Committed: 6, SnapshotIndex: 7, SnapshotTerm: 8, TruncatedIndex: pick(0, 9), TruncatedTerm: pick(1, 10), SegmentIndex: pick(2, 11), TruncatedOffset: pick(3, 12)}})
 	}
 	for _, v := range u64 {
 		out = append(out, Edit{Type: EditRaftPointer, Raft: &RaftLogPointer{GroupID: v, Segment: uint32(v), Offset: v, AppliedIndex: v, AppliedTerm: v, Committed: v, SnapshotIndex: v, SnapshotTerm: v, TruncatedIndex: v, TruncatedTerm: v, SegmentIndex: v, TruncatedOffset: v}})
